@@ -56,7 +56,7 @@ static std::atomic<long long> g_wallMs{1000};
 static std::atomic<bool> g_freezeSteady{true};
 static std::atomic<long long> g_steadyTicks{0};
 static std::atomic<long long> g_steadyBase{0};
-static std::atomic<unsigned long> g_clockReal{0}, g_clockMono{0}, g_slicedWaits{0};
+static std::atomic<unsigned long> g_clockReal{0}, g_clockMono{0}, g_slicedWaits{0}, g_stressReads{0};
 
 // ------------------------------------------------------------------ file events
 struct Event
